@@ -1,14 +1,16 @@
 """C12 - decided on the metadata-heavy engine-history corpus by the C12.* clauses of spec/Trace_Doc.tla."""
-from checks import _shared
+from checks import _shared, _core
 import shared
 
 LEVEL = "model_checking"
 
 
 def run(ctx):
-  return _shared.run_clauses(ctx, "C12.", lambda e: e['k'] == 'B' and e['n_summary'] > 0,
-                             "after every successful call on documents with summary tables: keys of the summary rows = keys derived from the source rows (list-valued group-by cells contribute one key per distinct element, empty list counts as ''/0, non-list values none), no duplicate keys, each group = matching source rows ascending (Meta!SummaryViolations)", name="meta", plan=shared.PLAN_META)
+  return _core.merge(ctx, _shared.run_clauses(ctx, "C12.", lambda e: e['k'] == 'B' and e['n_summary'] > 0,
+                             "after every successful call on documents with summary tables: keys of the summary rows = keys derived from the source rows (list-valued group-by cells contribute one key per distinct element, empty list counts as ''/0, non-list values none), no duplicate keys, each group = matching source rows ascending (Meta!SummaryViolations)", name="meta", plan=shared.PLAN_META), "C12.")
 
 
 def replay(ctx, data):
+  if "core_chunk" in data:
+    return _core.replay(ctx, data, "C12.")
   return _shared.replay_clause(ctx, data, "C12.")
